@@ -353,10 +353,14 @@ class Prefixed(BaseModel):
         return lhs <= rhs
 
     def __eq__(self, other) -> bool:
+        if not isinstance(other, (Prefixed, int, float, str, Decimal)):
+            return NotImplemented  # Not a number, e.g. `None` or a `Literal`: unequal rather than an error
         lhs, rhs = _comparable(self, other)
         return lhs == rhs
 
     def __ne__(self, other) -> bool:
+        if not isinstance(other, (Prefixed, int, float, str, Decimal)):
+            return NotImplemented
         lhs, rhs = _comparable(self, other)
         return lhs != rhs
 
